@@ -76,7 +76,8 @@ def gen(rng, kind, tier):
         f["amp"] = float(rng.uniform(0.1, 3))
         f["offset"] = float(rng.choice([0.0, 0.5, -2.0]))
         f["phase"] = float(rng.uniform(0, 2 * math.pi))
-    case = {"grid": spec, "field": f, "scale": float(rng.choice([-1.0, 2.0, 0.25, -7.5, 1e-4, 1e3])),
+    pixel_type = str(rng.choice(["uint8", "uint16", "int16", "int32", "int64"])) if (kind == "raw" and rng.random() < 0.2) else None
+    case = {"grid": spec, "field": f, "pixel_type": pixel_type, "scale": float(rng.choice([-1.0, 2.0, 0.25, -7.5, 1e-4, 1e3])),
             "roll": [int(rng.integers(-n, n + 1)) for n in spec["shape"]],
             "stretch": float(rng.choice([0.5, 2.0, 3.0, 0.1, 10.0])), "perm_seed": int(rng.integers(1 << 30))}
     if kind == "smooth":
@@ -125,9 +126,11 @@ def make_data(spec, f):
     return r.normal(0.3, 1, shape) * 1e6
 
 
-def field_of(spec, data):
+def field_of(spec, data, dtype=None):
     from pde import ScalarField
 
+    if dtype is not None:
+        return ScalarField(geom.make_grid(spec), np.asarray(data).astype(dtype), dtype=dtype)
     return ScalarField(geom.make_grid(spec), np.asarray(data, float))
 
 
@@ -216,10 +219,24 @@ def run(case, rec):
         rec.count(f"big:dim{dim}|cells:{int(np.prod(shape)) // 10000 * 10000}+")
         return
     if kind == "raw":
-        the_field = field_of(spec, data)
-        keep = np.array(the_field.data, copy=True)
+        px = None
+        if case.get("pixel_type"):
+            # grey values of a camera image: whole numbers in the upper part of the type's range (float64 copy for the oracle)
+            px = np.dtype(case["pixel_type"])
+            span = float(np.ptp(data)) or 1.0
+            if px.kind in "iu":
+                top = min(int(np.iinfo(px).max), 60000)
+                data = np.round((data - float(data.min())) / span * min(200, top - 30)) + (top - 230 if top > 400 else 25)
+            else:
+                data = data.astype(px).astype(float)
+            if not np.any(data):
+                return
+            rec.count(f"pixel_type:{px.name}")
+        the_field = field_of(spec, data, px)
+        keep = np.array(the_field.data, dtype=float, copy=True)
         c = common.monitored(rec, "get_structure_factor", sf, the_field, smoothing=None)
-        rec.check(np.array_equal(np.asarray(the_field.data), keep) and np.array_equal(np.asarray(data, float), keep), "input-unchanged",
+        rec.check(np.array_equal(np.asarray(the_field.data, float), keep) and np.array_equal(np.asarray(data, float), keep)
+                  and (px is None or the_field.data.dtype == px), "input-unchanged",
                   f"get_structure_factor modified the field it was given; {label}")
         data = keep  # later relations start from the original values
         if not rec.check(c.ok, "no-exception", f"get_structure_factor raised {common.exc_text(c.exc) if c.exc else ''}; {label}"):
